@@ -60,6 +60,11 @@ type op struct {
 	G    string   `json:"g,omitempty"`
 	N    int64    `json:"n,omitempty"`
 	Exp  *int64   `json:"exp,omitempty"` // set: expiry offset (nil = none); patch: PatchMeta.SetExpiredAt offset (nil = untouched)
+	// Delay: virtual ns this mutator sleeps after the wave's gate opens and before it sends its
+	// request. Shorter than hookDelay, it orders mutators one after the other INSIDE the window in
+	// which a forced PatchExpired is parked between its selection and its patch + re-index
+	// (delete, then re-create the same key: a multi-step sequence concurrent starts cannot pin).
+	Delay int64 `json:"delay,omitempty"`
 }
 
 type sched struct {
@@ -303,6 +308,17 @@ func gen(c *rig.Check, idx int) sched {
 			nm = 1 + r.IntN(2)
 		}
 		muts := guardMuts
+		if forced == "sel" && w == 0 && claimers[0].Kind == "pex" && len(aim) > 0 && r.IntN(2) == 0 {
+			// a record the parked PatchExpired has selected is deleted and its key re-created (a new
+			// record object, expired or not) before the patch + re-index continue
+			k := aim[r.IntN(len(aim))]
+			re := op{Kind: "set", Keys: []string{k}, St: statuses[r.IntN(len(statuses))], G: groups[r.IntN(len(groups))], N: int64(r.IntN(6)), Delay: int64(hookDelay) * 3 / 10}
+			if r.IntN(3) != 0 {
+				re.Exp = p64(pickExp(r, 60))
+			}
+			muts = append(muts, op{Kind: "del", Keys: []string{k}}, re)
+			s.Tag += "+recreate"
+		}
 		pickKey := func() string {
 			if len(aim) > 0 && r.IntN(100) < 70 {
 				return aim[r.IntN(len(aim))]
@@ -396,6 +412,18 @@ func fixedCases() []sched {
 			{Kind: "sbk", Keys: []string{"k01"}},
 			{Kind: "shm", Index: "key", HowMany: 1, F: &filt{Legs: []leg{{F: "n", Op: "eq", I: 2}}}},
 		}})
+		// a selected record is deleted and its key re-created (new record object: unexpired /
+		// expired again) between PatchExpired's selection and its patch + re-index; the closing
+		// sweep must not hand out the deleted version, nor remove the live unexpired one
+		for vi, exp := range []int64{int64(time.Hour), -sec} {
+			out = append(out, sched{Recs: recs(), Settle: settle, Tag: fmt.Sprintf("fixed-sel-pex-recreate-%d", vi), Ops: []op{
+				{Kind: "pex", HowMany: 3, Force: "sel"},
+				{Kind: "del", Keys: []string{"k00"}},
+				{Kind: "set", Keys: []string{"k00"}, St: "run", G: "b", N: 5, Exp: p64(exp), Delay: int64(hookDelay) * 3 / 10},
+				{Kind: "del", Keys: []string{"k01"}},
+				{Kind: "set", Keys: []string{"k01"}, St: "pending", G: "a", N: 1, Exp: p64(exp), Delay: int64(hookDelay) * 6 / 10},
+			}})
+		}
 		// a record is overwritten / patched between a shift's selection and its removal
 		out = append(out, sched{Recs: recs(), Settle: settle, Tag: "fixed-sel-shx-set", Ops: []op{
 			{Kind: "shx", HowMany: 3, Force: "sel"},
